@@ -263,6 +263,14 @@ func (s *Service) trafficInit() error {
 		return err
 	}
 
+	// peers known only through a cheque (no stored traffic total yet) must be restored too
+	for k := range lastCheques {
+		allRetrieveTransfer[k] = struct{}{}
+	}
+	for k := range lastTransCheques {
+		allRetrieveTransfer[k] = struct{}{}
+	}
+
 	addressList, err := s.getAllAddress(allRetrieveTransfer)
 	if err != nil {
 		return fmt.Errorf("traffic: Failed to get chain node information:%v ", err)
